@@ -193,6 +193,31 @@ Check C14_roundtrip :
   import_into s (run_export p) = Some s.
 Print Assumptions C14_roundtrip.
 
+(* import = union for ANY pair of lists: the text exported from a list o (in any iteration order p),
+   imported into any duplicate-free list s — empty or not, overlapping or not — gives a duplicate-free list
+   whose members are exactly those of s and those of o: every lint ignored in either source stays hidden
+   (C14_hides speaks about membership of the hash only), nothing else becomes hidden *)
+Theorem C14_import_is_union :
+  forall s o p,
+  Permutation p o -> Forall (fun h => (h <= u64_max)%N) o -> NoDup s ->
+  exists s', import_into s (run_export p) = Some s' /\ NoDup s' /\ forall h, In h s' <-> In h s \/ In h o.
+Proof. exact import_is_union. Qed.
+Check C14_import_is_union :
+  forall s o p,
+  Permutation p o -> Forall (fun h => (h <= u64_max)%N) o -> NoDup s ->
+  exists s', import_into s (run_export p) = Some s' /\ NoDup s' /\ forall h, In h s' <-> In h s \/ In h o.
+Print Assumptions C14_import_is_union.
+
+(* IgnoredLints::append itself: set union *)
+Theorem C14_append_is_union :
+  forall s o,
+  NoDup s -> NoDup (ig_append s o) /\ forall h, In h (ig_append s o) <-> In h s \/ In h o.
+Proof. exact append_is_union. Qed.
+Check C14_append_is_union :
+  forall s o,
+  NoDup s -> NoDup (ig_append s o) /\ forall h, In h (ig_append s o) <-> In h s \/ In h o.
+Print Assumptions C14_append_is_union.
+
 (* ---------- keeps hiding it ---------- *)
 (* The property's third sentence at full strength (stays_ignored, IgnoreProofs.v): whatever the hash
    function, whatever was in the list and whatever is ignored afterwards — if the report is the same and the
@@ -260,4 +285,10 @@ Example C14_roundtrip_example :
   run_import (run_export [18446744073709551615; 0; 10; 1099511627776]%N) = Some [1099511627776; 10; 0; 18446744073709551615]%N /\
   run_import [123; 34; 99; 111; 110; 116; 101; 120; 116; 95; 104; 97; 115; 104; 101; 115; 34; 58; 91; 48; 49; 93; 125]%N = None /\
   run_import (run_export [18446744073709551616]%N) = None.
+Proof. repeat split; vm_compute; reflexivity. Qed.
+
+(* import into a NON-EMPTY list: members of both survive, whatever the numeric order of the hashes *)
+Example C14_import_union_example :
+  import_into [5; 100]%N (run_export [7; 300; 5]%N) = Some [7; 300; 5; 100]%N /\
+  import_into [300]%N (run_export [7]%N) = Some [7; 300]%N /\ import_into [7]%N (run_export [300]%N) = Some [300; 7]%N.
 Proof. repeat split; vm_compute; reflexivity. Qed.
